@@ -397,6 +397,69 @@ func main() {
 			t.Outcome("ok")
 		})
 
+		// Mask readers and writers stacked on one another (a payload masked twice, or a relay that
+		// unmasks with one key and masks with another): the inner one has already carried k bytes when
+		// the outer one is put on top of it (by the constructor or by Reset). Each layer applies its
+		// own key at its own running offset; the result is compared with the formula, not with the
+		// other direction.
+		r.Part("E3f-stacked-mask-readers-and-writers", func(t *explore.T) {
+			ka, kb := keys[1], keys[4]
+			for k := 0; k <= 9; k++ {
+				for _, how := range []string{"constructor", "Reset"} {
+					for _, n := range []int{1, 3, 4, 5, 64, 1000} {
+						k, how, n := k, how, n
+						t.Do(func() string {
+							return fmt.Sprintf("inner layer has carried %d bytes, outer layer put on by %s, then %d bytes", k, how, n)
+						}, func() *explore.Fail {
+							data := fill(k+n, 2)
+							// what the formula says: every byte gets the inner key at its stream offset; the bytes
+							// behind the first k also the outer key, counted from 0
+							want := refmodel.XOR(data, ka, 0)
+							tail := refmodel.XOR(want[k:], kb, 0)
+							// reader
+							inner := wsutil.NewCipherReader(bytes.NewReader(data), ka)
+							head := make([]byte, k)
+							if _, err := io.ReadFull(inner, head); err != nil {
+								return explore.Failf("harness-stacked-read", "%v", err)
+							}
+							var outer *wsutil.CipherReader
+							if how == "constructor" {
+								outer = wsutil.NewCipherReader(inner, kb)
+							} else {
+								outer = wsutil.NewCipherReader(bytes.NewReader(nil), keys[2])
+								outer.Reset(inner, kb)
+							}
+							got, err := io.ReadAll(outer)
+							if err != nil || !bytes.Equal(head, want[:k]) || !bytes.Equal(got, tail) {
+								return explore.Failf("stacked-CipherReader-wrong", "err=%v; first difference at %d of %d", err, firstDiff(got, tail), len(tail))
+							}
+							// writer
+							d := env.NewDst()
+							iw := wsutil.NewCipherWriter(d, ka)
+							if _, err := iw.Write(append([]byte{}, data[:k]...)); err != nil {
+								return explore.Failf("harness-stacked-write", "%v", err)
+							}
+							var ow *wsutil.CipherWriter
+							if how == "constructor" {
+								ow = wsutil.NewCipherWriter(iw, kb)
+							} else {
+								ow = wsutil.NewCipherWriter(env.NewDst(), keys[2])
+								ow.Reset(iw, kb)
+							}
+							if _, err := ow.Write(append([]byte{}, data[k:]...)); err != nil {
+								return explore.Failf("stacked-CipherWriter-error", "%v", err)
+							}
+							if out := d.Bytes(); !bytes.Equal(out, append(append([]byte{}, want[:k]...), tail...)) {
+								return explore.Failf("stacked-CipherWriter-wrong", "first difference at %d of %d", firstDiff(out, append(append([]byte{}, want[:k]...), tail...)), len(out))
+							}
+							return nil
+						})
+					}
+				}
+			}
+			t.Outcome("ok")
+		})
+
 		r.Part("E3b-large-transfers-at-every-offset", func(t *explore.T) {
 			key := keys[4]
 			bigs := []int{4096, 4097, 65535, 65536, 65537, 70001, 131072, 200003}
